@@ -36,7 +36,9 @@ BOUNDS = ("3 durative skeletons inside TimedToSequential.supported_kind() (Boole
           "or one bound the value of a numeric fluent with symbolic initial value (fluent constant -> pruned by the compiler, or "
           "increased by another action); problem.epsilon in {None, 1/8, 3}; every compiled plan of length 0..2 (quick) / 0..3 (thorough)")
 OUTSIDE = ("conditional effects and intermediate conditions/effects (outside the compiler's supported kind), interpreted functions, "
-           "object parameters in durations, problem.epsilon = 0, non-global environments (one concrete shard)")
+           "object parameters in durations, problem.epsilon = 0, the zero-length duration interval [0,0] (start and end of the action are then one "
+           "happening for the validator, while the compiled action applies start effects and then end effects), non-global environments "
+           "(one concrete shard)")
 ASSUMPTIONS = [
     "the problem lives in the global environment: TimedToSequential._compile creates its InstantaneousActions without an environment, so "
     "the path's fresh Environment is installed as GLOBAL_ENVIRONMENT around compile / plan_back_conversion (vf/tplan.as_global); the "
@@ -95,9 +97,10 @@ def _build(ctx, env, sk, lo_open, hi_open, bound, nmode, sym, den, eps):
         lo_e, hi_e = n_exp, em.Plus(n_exp, em.Real(hi_v))
     else:
         lo_e, hi_e = em.Real(lo_v), em.Real(hi_v)
-    if bound in ("const", "both") and not lo_open and not hi_open:
-        # the zero-length interval [0, 0] (or [n, n] with n = 0) is outside the claim: see OUTSIDE
-        ctx.assume(hi_v > 0)
+    if not lo_open and not hi_open:
+        # the zero-length interval [0, 0] is outside the claim (see OUTSIDE): the constant upper bound / the initial value of
+        # the fluent that is the upper bound is positive
+        ctx.assume((n_init if bound == "upper" else hi_v) > 0)
     try:
         A.set_duration_constraint(_interval(env, lo_e, hi_e, lo_open, hi_open))
     except UPProblemDefinitionError:
@@ -205,7 +208,7 @@ def h_t2s(ctx, sk, lo_open, hi_open, sym, bound="const", nmode="pruned", eps=Non
     ctx.check(len(back.timed_actions) == n, "back:length", "the converted plan has a different number of action instances")
     # (1) durations inside the interval, in the state in which the action starts
     n_now = S["n_init"]
-    flags = f"{'left-open' if lo_open else 'left-closed'}/{'right-open' if hi_open else 'right-closed'}/{bound}"
+    flags = f"{'left-open' if lo_open else 'left-closed'}:{'right-open' if hi_open else 'right-closed'}:{bound}"
     for i, (start, ai, dur) in enumerate(back.timed_actions):
         ctx.check(ai.action.name == steps[i].name, "back:order", "the converted plan does not keep the order of the compiled plan")
         if isinstance(ai.action, DurativeAction):
@@ -216,7 +219,7 @@ def h_t2s(ctx, sk, lo_open, hi_open, sym, bound="const", nmode="pruned", eps=Non
                 inside = And((lo < dur) if lo_open else (lo <= dur), (dur < hi) if hi_open else (dur <= hi))
                 if bound != "const":
                     # a state-dependent interval can be empty in the state where the compiled action is applicable
-                    ctx.require(nonempty, f"dur-outside:{flags}:empty-interval",
+                    ctx.require(nonempty, f"empty-interval:{flags}",
                                 "the compiled action is applicable in a state where the duration interval of the original action is empty")
                 ctx.require(inside, f"dur-outside:{flags}",
                             f"the back conversion chose a duration outside the action's duration interval "
@@ -227,6 +230,10 @@ def h_t2s(ctx, sk, lo_open, hi_open, sym, bound="const", nmode="pruned", eps=Non
         n_now = n_now + S["n_delta"].get(ai.action.name, 0)
     # (2) the real validator accepts the converted plan for the ORIGINAL problem
     ok2, r2 = tplan.tt_valid(env, problem, back)
+    if not ok2 and any(d is not None and d == 0 for _s, _a, d in back.timed_actions):
+        ctx.fail(f"back-invalid:zero-duration:{flags}",
+                 f"compiled plan {[a.name for a in steps]} is valid for the compiled problem; the back conversion chose duration 0 for a durative "
+                 f"action and the converted plan is rejected for the original problem ({r2.reason})")
     ctx.check(ok2, f"back-invalid:{flags}",
               f"compiled plan {[a.name for a in steps]} is valid for the compiled problem but the converted plan is rejected for the "
               f"original problem ({r2.reason})")
